@@ -63,7 +63,7 @@ def run(ctx):
                 'are non-trivial (each exercises the poll or the never-cancelled path)')
     ctx.assumptions += [
         '"about a thousand further interpreter steps" is taken as one poll interval of the code (1000 dispatched VM '
-        'instructions, counted by the verif hook after vcancel() returned) plus a slack of 8; where inside the interval the '
+        'instructions, counted by the verif hook after vcancel() returned) plus a slack of 32 (so that e.g. an interval of 1024 would pass); where inside the interval the '
         'code polls is not demanded',
         'a deadline is delivered deterministically by a context.Context implementation whose Done channel the harness '
         'closes and whose Err() is DeadlineExceeded; real context.WithTimeout contexts are used in the recorded traces',
